@@ -363,6 +363,17 @@ def capind_C01(v, sc, binary):
             raise Inconclusive("CapInd obligation %s %s: expected %s" % (mod, args, "a counter-example" if expect_error else "NoError"))
         res["%s %s" % (mod, " ".join(args))] = "counter-example (expected, vacuity twin)" if err else "NoError (%.0fs)" % wall
     v.cov["apalache_inductive_capacity"] = res
+    # TLAPS: the capacity invariant of the abstraction both simplified disciplines are built on (InnerAbs.tla), for every H.
+    # A proof attempt that does not go through is reported in the evidence; it is neither a verdict nor a failure of the check.
+    subp = os.path.join(sc, "tlaps")
+    os.makedirs(subp, exist_ok=True)
+    stage_specs(subp)
+    try:
+        rc, out, wall = run(["tlapm", "--threads", "8", "--cleanfp", "InnerAbs_Proof.tla"], cwd=subp, timeout=300, env=dict(TMPDIR=subp))
+        m = re.search(r"All (\d+) obligations? proved", out)
+        v.cov["tlaps_innerabs_capacity"] = ("%s obligations proved (Spec => []Capacity for every H in Nat)" % m.group(1)) if m else "not proved: " + out[-300:]
+    except Exception as e:  # tool trouble only
+        v.cov["tlaps_innerabs_capacity"] = "tlapm did not run: %s" % str(e)[:200]
 
 
 def check_C01(tier):
